@@ -14,6 +14,7 @@ struct ScenOpts {
   double p_extended = 0.0;                 // probability that a variable is extended-Lagrangian
   double p_excursion = 0.5;                // probability that the grid covers only part of the range
   bool allow_mts = true;
+  double p_subtract = 0.0;                 // probability that a variable whose total force is read has subtractAppliedForce on
   int traj_freq = 1;
   int restart_freq = 0;
   bool smp = false;
